@@ -201,6 +201,13 @@ def generate(tier, seed, ctx):
         if op == "c06.uplow" and a > 170:
             op = "c06.gammaq"           # Gamma(s) overflows: Upper/Lower are inf*Q
         R.append("%s %s %s" % (op, hx(x), hx(a)))
+    # a > 100: dense where a single-interval adaptive Simpson stopped prematurely before `fix:` f69671d
+    # ((x-a)/sqrt(a) close to -0.48, 6.7, 8.8, 9.1) and over the whole +-10 sigma window
+    for j in range(1500 if th else 320):
+        a = 10.0 ** rng.uniform(2.005, 4) if j % 4 else rng.uniform(100.5, 1e4)
+        z = rng.choice([-0.48, 6.7, 8.84, 9.06]) + rng.uniform(-0.08, 0.08) if j % 3 else rng.uniform(-10.5, 10.5)
+        x = max(1e-3, a + z * math.sqrt(a))
+        R.append("%s %s %s" % (("c06.gammaq", "c06.gammap", "c06.qint", "c06.gammaq")[j % 4], hx(x), hx(a)))
     # the switch-over x = a+1 probed exactly: dyadic a (a+1 exact), x = a+1 and its neighbours
     for _ in range(200 if th else 50):
         a = rng.randint(1, 100 * 64) / 64.0
@@ -271,6 +278,14 @@ def generate(tier, seed, ctx):
         else:
             a = 10.0 ** rng.uniform(2, 4)
         R.append("%s %s %s" % ("c06.invp" if j % 3 else "c06.invq", hx(p), hx(a)))
+    for j in range(600 if th else 120):   # a > 100 and p within 1e-8 of 1 (and of 0)
+        a = 10.0 ** rng.uniform(2.005, 4)
+        q = 10.0 ** rng.uniform(-12, -7)
+        q = max(q, 1.0000001e-12)
+        if j % 2:
+            R.append("c06.invp %s %s" % (hx(1 - q if j % 4 == 1 else q), hx(a)))
+        else:
+            R.append("c06.invq %s %s" % (hx(q if j % 4 == 0 else 1 - q), hx(a)))
     for p, a in [(0.0, 1.0), (1.0, 1.0), (-0.5, 2.0), (1.5, 2.0), (1.0, 1e4), (0.5, 0.0), (0.5, -1.0), (0.0, 0.0), (2.0, -3.0), (1.0, 150.0)]:
         R.append("c06.invp %s %s" % (hx(p), hx(a)))
         R.append("c06.invq %s %s" % (hx(p), hx(a)))
